@@ -590,10 +590,22 @@ func TestVerifC06Dial(t *testing.T) {
 				c2.Close()
 				select {
 				case <-done:
-				case <-time.After(5 * time.Second):
+				case <-time.After(20 * time.Second):
 					r.Panic = "Proxy did not return"
 				}
 				c1.Close()
+			}
+			// the recorder's accept loop runs concurrently: give it time when a connection is due
+			if r.Valid {
+				for k := 0; k < 400; k++ {
+					rec.mu.Lock()
+					n := len(rec.seen)
+					rec.mu.Unlock()
+					if n > 0 {
+						break
+					}
+					time.Sleep(5 * time.Millisecond)
+				}
 			}
 			time.Sleep(5 * time.Millisecond)
 			r.Dialed = rec.take()
